@@ -60,13 +60,14 @@ type World struct {
 	Fee   txgen.Fee
 	memoN int
 
-	Props    []*PropInfo
-	Domains  []*DomInfo
-	Tracks   []*TrackInfo
-	Allegs   []*AllegInfo
-	OlvmNext map[string]uint64 // next nonce per eth user (bookkeeping of executed txs)
-	EthNonce map[string]uint64 // nonce for embedded ethereum txs
-	Contract []ethcmn.Address
+	Props     []*PropInfo
+	Domains   []*DomInfo
+	Tracks    []*TrackInfo
+	Allegs    []*AllegInfo
+	OlvmNext  map[string]uint64 // next nonce per eth user (bookkeeping of executed txs)
+	EthNonce  map[string]uint64 // nonce for embedded ethereum txs
+	Contract  []ethcmn.Address
+	Factories []ethcmn.Address // deployed "fund, then deploy" factories (see rtFactory)
 
 	Results []*sim.BlockRes // primary replica's results per block
 }
